@@ -226,6 +226,6 @@ def self_test():
 
 
 LAWS = [
-    given_law("oracle", geometry(), cov_body, {"quick": 45, "thorough": 300}, shards={"quick": 4, "thorough": 16}),
-    given_law("metamorphic", meta_cases(), meta_body, {"quick": 25, "thorough": 100}, shards={"quick": 2, "thorough": 16}),
+    given_law("oracle", geometry(), cov_body, {"quick": 70, "thorough": 600}, shards={"quick": 6, "thorough": 16}),
+    given_law("metamorphic", meta_cases(), meta_body, {"quick": 35, "thorough": 250}, shards={"quick": 4, "thorough": 16}),
 ]
